@@ -305,13 +305,25 @@ func (r *RoundRobinSelection) Select(pool UpstreamPool, _ *layer4.Connection) *U
 		return nil
 	}
 	for i := uint32(0); i < n; i++ {
-		atomic.AddUint32(&r.robin, 1)
-		host := pool[r.robin%n]
+		host := pool[r.next(n)]
 		if host.available() {
 			return host
 		}
 	}
 	return nil
+}
+
+// next advances the shared counter and returns the index to use. The counter is
+// kept below n, so it never wraps around at 2^32 (which would repeat or skip
+// upstreams whenever n is not a power of two), and it is only accessed atomically.
+func (r *RoundRobinSelection) next(n uint32) uint32 {
+	for {
+		old := atomic.LoadUint32(&r.robin)
+		next := (old + 1) % n
+		if atomic.CompareAndSwapUint32(&r.robin, old, next) {
+			return next
+		}
+	}
 }
 
 // UnmarshalCaddyfile sets up the RoundRobinSelection from Caddyfile tokens. Syntax:
